@@ -17,6 +17,11 @@
 (* unconfirmed-parent infos as [weight, fee]).  The Sweep* invariants and    *)
 (* RegroupStart compare the two (they are part of SweepFeeTraceConform.cfg   *)
 (* too: a request that is not SweepReq(config, set) conforms to no model).   *)
+(* With an aux sweeper (custom channels) the line also carries xout, the     *)
+(* value of the extra output the aux sweeper adds to every tx of the request *)
+(* (reqout is the sum of the inputs' own required outputs), and xbudget, the *)
+(* set's extra budget; `weight' is the weight of the tx as it is built, the  *)
+(* extra output included.                                                    *)
 EXTENDS SweepFee, Json
 VARIABLE l
 
@@ -40,10 +45,11 @@ SeqSame(q) == IF Len(q) > 0 /\ \A i \in 1..Len(q) : q[i] = q[1] THEN q[1] ELSE -
 Col(q, k) == [i \in 1..Len(q) |-> q[i][k]]
 
 ReqOf(t) == [budget |-> t.budget, weight |-> t.weight, maxrate |-> t.maxrate, relay |-> t.relay,
-             totalin |-> t.totalin, reqout |-> t.reqout, dust |-> t.dust, deadline |-> t.deadline,
+             totalin |-> t.totalin, reqout |-> t.reqout + t.xout, dust |-> t.dust, deadline |-> t.deadline,
              sopt |-> t.sopt, est |-> t.est, prevmax |-> SeqMax(t.prevs),
              cfgvb |-> t.cfgvb, inbudget |-> SeqSum(t.budgets), indeadline |-> SeqSame(t.deadlines),
-             pweight |-> SeqSum(Col(t.parents, 1)), pfee |-> SeqSum(Col(t.parents, 2))]
+             pweight |-> SeqSum(Col(t.parents, 1)), pfee |-> SeqSum(Col(t.parents, 2)),
+             xout |-> t.xout, xbudget |-> t.xbudget]
 
 TNext ==
   \/ Reset
@@ -101,7 +107,7 @@ TxNoDust == (Live /\ Last.a \in {"Check", "Pub"}) =>
   /\ \A k \in 1..Len(Last.outs) : Last.outs[k][1] >= Last.outs[k][2]
 TxWithinBudget == (Live /\ Last.a \in {"Check", "Pub"}) =>
   /\ Last.fee <= rq.budget
-  /\ Last.fee <= rq.inbudget
+  /\ Last.fee <= rq.inbudget + rq.xbudget
   /\ Last.rate <= rq.maxrate \/ StartTrigger
 (* ... and on the transaction as it is handed to the wallet - fee = inputs - *)
 (* outputs, over the weight of the sweep tx itself, whatever the inputs      *)
@@ -115,4 +121,14 @@ TxRateLeCfgMax == (Live /\ Last.a \in {"Check", "Pub"}) =>
 TxPaysOfferedRate == (Live /\ Last.a \in {"Check", "Pub"} /\ ff.live) =>
   /\ Last.fee >= FeeFor(ff.cur, rq.weight)
   /\ Last.fee <= FeeFor(ff.cur, rq.weight) + AbsorbMax(rq, Last.change)
+(* the property on the values of the NEXT line, before the model takes the   *)
+(* step (a line the model cannot follow at all is a deadlock; these name the *)
+(* clause): the ending rate a fresh fee function gets is the ceiling of the  *)
+(* request - the lesser of the budget over the size of the tx that is BUILT  *)
+(* (all its outputs) and the maximum - and no function starts above its      *)
+(* ending rate, whatever the source of the starting rate                     *)
+NextEndIsCeilingOfBuiltTx ==
+  (l <= Len(Trace) /\ Trace[l].a = "Init" /\ pc = "ready") => Trace[l].maxallowed \in EndRates
+NextStartCappedAtEnd ==
+  (l <= Len(Trace) /\ Trace[l].a \in {"New", "Init"} /\ Trace[l].live = 1 /\ ClampStart) => Trace[l].start <= Trace[l].end
 =============================================================================
